@@ -76,6 +76,30 @@ func (c *Ctx) GLOB(rule string) []report.Obligation {
 			}
 		}
 	}
+	// aliases: `x := pkgVar` copies a slice header / map / pointer, not the data. A write through the copy
+	// (an element store, sort.Slice(x, …), a callee that writes through its argument) modifies the shared variable.
+	for _, f := range c.P.Funcs {
+		if isInitFunc(f) {
+			continue
+		}
+		for _, ev := range c.globalAliasWrites(f) {
+			if !c.P.IsModulePkg(ev.g.Pkg.Pkg) {
+				continue
+			}
+			gname := c.P.Rel(ev.g.Pkg.Pkg) + "." + ev.g.Name()
+			what := ev.what
+			if mu := heldGlobalMutex(f, ev.in); mu != "" {
+				what += " (holding " + mu + ")"
+			}
+			k := gname + " :: " + what + " in " + c.P.FuncID(f)
+			if writers[k] {
+				continue
+			}
+			writers[k] = true
+			out = append(out, report.Obligation{Rule: rule, Key: k, Pos: c.P.InstrPos(ev.in), Status: report.Violation,
+				Why: "the data of package-level variable " + gname + " is modified after initialisation through a copy of its slice header / map / pointer (" + what + "): state shared between loads and between goroutines"})
+		}
+	}
 	out = append(out, report.Obligation{Rule: rule, Key: "inventory", Status: report.Discharged,
 		Why: "all functions of the module scanned for writes to package-level variables outside init"})
 	return out
@@ -172,4 +196,142 @@ func calleeDesc(c *Ctx, com *ssa.CallCommon) string {
 		return "method " + com.Method.Name()
 	}
 	return "dynamic callee"
+}
+
+type globalWrite struct {
+	g    *ssa.Global
+	in   ssa.Instruction
+	what string
+}
+
+// externalMutators: library functions that write the elements of their (first) argument.
+var externalMutators = map[string]bool{
+	"sort.Slice": true, "sort.SliceStable": true, "sort.Sort": true, "sort.Stable": true, "sort.Strings": true, "sort.Ints": true,
+	"slices.Sort": true, "slices.SortFunc": true, "slices.SortStableFunc": true, "slices.Reverse": true,
+}
+
+// globalAliasWrites follows, inside one function, the values loaded from package-level variables of reference
+// type through local variables, phis, slicing and conversions, and reports writes through them.
+func (c *Ctx) globalAliasWrites(f *ssa.Function) []globalWrite {
+	taint := map[ssa.Value]*ssa.Global{} // value -> the global whose data it shares
+	cells := map[ssa.Value]*ssa.Global{} // local cell (Alloc) holding such a value
+	changed := true
+	set := func(v ssa.Value, g *ssa.Global) {
+		if g != nil && taint[v] == nil {
+			taint[v] = g
+			changed = true
+		}
+	}
+	for iter := 0; changed && iter < 10; iter++ {
+		changed = false
+		for _, b := range f.Blocks {
+			for _, in := range b.Instrs {
+				switch x := in.(type) {
+				case *ssa.UnOp:
+					if x.Op.String() != "*" {
+						continue
+					}
+					if g, ok := x.X.(*ssa.Global); ok && mutableRef(x.Type()) && !isSyncType(x.Type()) {
+						set(x, g)
+					} else if g := cells[x.X]; g != nil {
+						set(x, g)
+					}
+				case *ssa.Store:
+					if g := taint[x.Val]; g != nil {
+						if al, ok := x.Addr.(*ssa.Alloc); ok && cells[al] == nil {
+							cells[al] = g
+							changed = true
+						}
+					}
+				case *ssa.Phi:
+					for _, e := range x.Edges {
+						set(x, taint[e])
+					}
+				case *ssa.Slice:
+					set(x, taint[x.X])
+				case *ssa.ChangeType:
+					set(x, taint[x.X])
+				case *ssa.MakeInterface:
+					set(x, taint[x.X])
+				}
+			}
+		}
+	}
+	if len(taint) == 0 {
+		return nil
+	}
+	// the shared data behind an address
+	var rootOf func(v ssa.Value, d int) *ssa.Global
+	rootOf = func(v ssa.Value, d int) *ssa.Global {
+		if d == 0 {
+			return nil
+		}
+		if g := taint[v]; g != nil {
+			return g
+		}
+		switch x := v.(type) {
+		case *ssa.IndexAddr:
+			return rootOf(x.X, d-1)
+		case *ssa.FieldAddr:
+			return rootOf(x.X, d-1)
+		}
+		return nil
+	}
+	var out []globalWrite
+	for _, b := range f.Blocks {
+		for _, in := range b.Instrs {
+			switch x := in.(type) {
+			case *ssa.Store:
+				if _, direct := x.Addr.(*ssa.Alloc); direct {
+					continue
+				}
+				if globalRoot(x.Addr) != nil {
+					continue // reported by the direct rule
+				}
+				if g := rootOf(x.Addr, 6); g != nil {
+					out = append(out, globalWrite{g, in, "store through an alias"})
+				}
+			case *ssa.MapUpdate:
+				if globalRoot(x.Map) == nil {
+					if g := taint[x.Map]; g != nil {
+						out = append(out, globalWrite{g, in, "map update through an alias"})
+					}
+				}
+			case ssa.CallInstruction:
+				com := x.Common()
+				if bi, ok := com.Value.(*ssa.Builtin); ok {
+					if (bi.Name() == "delete" || bi.Name() == "copy") && len(com.Args) > 0 && globalRoot(com.Args[0]) == nil {
+						if g := taint[com.Args[0]]; g != nil {
+							out = append(out, globalWrite{g, in, bi.Name() + " through an alias"})
+						}
+					}
+					continue
+				}
+				callee := com.StaticCallee()
+				if callee == nil {
+					continue
+				}
+				for i, a := range com.Args {
+					g := taint[a]
+					if g == nil {
+						continue
+					}
+					if !c.P.InModule(callee) || callee.Blocks == nil {
+						if externalMutators[calleeName(callee)] && i == 0 {
+							out = append(out, globalWrite{g, in, "passed to " + calleeName(callee) + ", which reorders it in place"})
+						}
+						continue
+					}
+					if i < len(callee.Params) && mutableRef(a.Type()) {
+						sum := c.imm().summary(callee, i)
+						c.imm().solve()
+						if sum.Writes {
+							out = append(out, globalWrite{g, in, "passed to " + c.P.FuncID(callee) + ", which writes through that argument"})
+						}
+					}
+				}
+			}
+		}
+	}
+	return out
 }
